@@ -113,9 +113,9 @@ func (lp *Listpack) Next() []byte {
 		negmax = math.MaxUint64 // uint64_max
 		lp.p += lpEncodeBacklen(1 + 8)
 	} else {
-		uval = 12345678900000000 + uint64(fireByte)
-		negstart = math.MaxUint64
-		negmax = 0
+		// no element starts with this byte (0xFF is the end marker) : the listpack is damaged.
+		// Returning a made-up value without moving on would make every caller's loop endless.
+		panic(fmt.Errorf("list pack, invalid element encoding : %v", fireByte))
 	}
 
 	/* We reach this code path only for integer encodings.
